@@ -3,6 +3,8 @@
 import json, os, subprocess
 root = os.path.dirname(os.path.dirname(os.path.abspath(__file__)))
 src = json.load(open(os.path.join(root, 'tools', 'manifest_src.json')))
+import glob
+src['checks'] = {os.path.basename(f)[:-5]: json.load(open(f)) for f in glob.glob(os.path.join(root,'tools','manifest.d','C*.json'))}
 props = [json.loads(l) for l in open(os.path.join(root, 'properties.jsonl'))]
 checks = []
 na = []
